@@ -17,6 +17,9 @@ def _val(v):
 
 
 SKIP = ('__', '@')
+# modules whose tables are caches or logging plumbing by design, and names of counters that are meant to run on
+MODULE_SKIP = ('plasTeX.Logging', 'plasTeX.Renderers.', 'plasTeX.Imagers')
+GLOBAL_SKIP = ('_cache', 'cache', 'idgen', 'log', 'status', 'deflog', 'envlog', 'mathshiftlog', 'tokenlog', 'macrolog', 'digestlog', 'grouplog')
 
 
 def all_subclasses(c):
@@ -57,6 +60,28 @@ def snapshot():
                 continue
             d[k] = _val(v)
         snap[key] = d
+    # classes that are no macros (dimen, glue, number, TeX, Tokenizer, Context, ...) and module-level tables of the plasTeX
+    # modules: their lists, dictionaries and scalars by value (a table extended in place while a document is read shows here)
+    for mname, m in list(sys.modules.items()):
+        if m is None or not (mname == 'plasTeX' or mname.startswith('plasTeX.')) or mname.startswith(MODULE_SKIP):
+            continue
+        gl = {}
+        for k, v in list(vars(m).items()):
+            if k.startswith('__') or k in GLOBAL_SKIP:
+                continue
+            if isinstance(v, (list, dict, set, frozenset, tuple, int, float, str, bool)):
+                gl[k] = _val(sorted(v, key=repr) if isinstance(v, (set, frozenset)) else v)
+            elif isinstance(v, type) and getattr(v, '__module__', None) == mname and not issubclass(v, plasTeX.Macro):
+                d = {}
+                for k2, v2 in list(vars(v).items()):
+                    if k2.startswith(SKIP) or k2 in GLOBAL_SKIP:
+                        continue
+                    if isinstance(v2, (list, dict, set, frozenset, tuple, int, float, str, bool, type(None))):
+                        d[k2] = _val(sorted(v2, key=repr) if isinstance(v2, (set, frozenset)) else v2)
+                if d:
+                    snap['#class:' + mname + '.' + v.__qualname__] = d
+        if gl:
+            snap['#module:' + mname] = gl
     snap['#Node'] = {k: ('present', 1) for k in vars(Node) if k in ('renderer', '_mixed_', 'filename', 'url', 'image', 'vectorImage')}
     snap['#process'] = {'cwd': ('str', os.getcwd()), 'TEXINPUTS': ('str', os.environ.get('TEXINPUTS', '<unset>')), 'sys.path': ('tuple', tuple(sys.path))}
     return snap
